@@ -73,12 +73,18 @@ Other(a, b) == CHOOSE w \in Vals : w # a /\ w # b
 Update(x, m, reject, r, echo, inter, interOld) ==
   LET base == [op |-> "Update", pre |-> G(reg), mask |-> m, sub |-> Zero] IN
   IF reject
-    THEN LET newreg == IF mut = "rejected-update-writes" THEN x ELSE reg IN
+    THEN LET newreg == IF mut = "rejected-update-writes" THEN x ELSE reg
+             \* the defective server has also published what it wrote; the client reads what is there
+             fed == [j \in 1..Len(streams) |->
+                       IF mut = "rejected-update-publishes" /\ ~streams[j].dead
+                         THEN [streams[j] EXCEPT !.q = @ \o <<[name |-> streams[j].name, v |-> Project(x, streams[j].mask, Zero), ct |-> "after-open"]>>]
+                         ELSE streams[j]]
+         IN
          /\ reg' = newreg
          /\ UNCHANGED <<timer, tv>>
-         /\ streams' = streams
+         /\ streams' = [j \in 1..Len(streams) |-> [fed[j] EXCEPT !.q = <<>>, !.nread = @ + Len(fed[j].q)]]
          /\ obs' = base @@ [code |-> "InvalidArgument", resp |-> Zero, post |-> G(newreg),
-                            streams |-> [j \in 1..Len(streams) |-> Snap(streams[j])]]
+                            streams |-> [j \in 1..Len(streams) |-> [Snap(streams[j]) EXCEPT !.msgs = fed[j].q]]]
     ELSE
       LET changed == r # reg
           resp == IF mut = "response-is-request" THEN x ELSE r
@@ -181,10 +187,23 @@ Wait ==
              resp |-> Zero, armed |-> (timer = "armed"),
              streams |-> [j \in 1..Len(streams) |-> [Snap(streams[j]) EXCEPT !.msgs = fed[j].q]]]
 
+\* ---- a change smaller than any tolerance: stored and answered, due on no stream ----
+Nudge(r, echo) ==
+  LET stored == IF mut = "equivalent-write-not-stored" THEN reg ELSE r IN
+  /\ reg' = stored
+  /\ UNCHANGED <<timer, tv>>
+  /\ streams' = [j \in 1..Len(streams) |->
+                   [streams[j] EXCEPT !.pending = @ + 1,
+                                      !.q = IF echo /\ ~streams[j].dead /\ stored = r
+                                              THEN @ \o <<[name |-> streams[j].name, v |-> Project(r, streams[j].mask, Zero), ct |-> "after-open"]>>
+                                              ELSE @]]
+  /\ obs' = [op |-> "Nudge", pre |-> G(reg), post |-> G(stored), code |-> "OK", mask |-> M(TRUE, <<>>), sub |-> Zero,
+             resp |-> r, streams |-> [j \in 1..Len(streams) |-> Snap(streams[j])]]
+
 Step ==
   \* the update mask and the written value do not influence the reference machine (business rules are
   \* opaque), so they are not varied except where a mutant uses the written value
-  \/ \E x \in (IF mut \in {"response-is-request", "rejected-update-writes"} THEN Vals ELSE {reg}),
+  \/ \E x \in (IF mut \in {"response-is-request", "rejected-update-writes", "rejected-update-publishes"} THEN Vals ELSE {reg}),
         m \in {M(TRUE, <<>>)}, reject \in BOOLEAN, r \in Vals, echo \in BOOLEAN, inter \in BOOLEAN, interOld \in BOOLEAN :
        /\ (reject => r = reg /\ ~echo /\ ~inter)          \* irrelevant choices collapsed
        /\ (r = reg => ~inter) /\ (r # reg => ~echo) /\ (~inter => ~interOld)
@@ -198,6 +217,7 @@ Step ==
   \/ OtherRecord
   \/ TimedUpdate(Other(reg, reg), Other(reg, Other(reg, reg)))   \* one representative: start value # target # current
   \/ Wait
+  \/ \E echo \in BOOLEAN : Nudge(Other(reg, reg), echo)
 
 Next ==
   /\ steps < MaxSteps
